@@ -10,7 +10,10 @@ import (
 	"time"
 
 	"github.com/netsampler/goflow2/v2/format"
+	"github.com/netsampler/goflow2/v2/metrics"
+	"github.com/netsampler/goflow2/v2/producer"
 	protoproducer "github.com/netsampler/goflow2/v2/producer/proto"
+	"github.com/netsampler/goflow2/v2/utils/debug"
 	"github.com/netsampler/goflow2/v2/utils"
 )
 
@@ -48,21 +51,31 @@ func groupByRecv(data [][]byte) map[string][]string {
 	return g
 }
 
+type decoder struct{ f utils.DecoderFunc }
+
+func (d decoder) DecodeFlow(m interface{}) error { return d.f(m) }
+
 func init() {
 	// par #workers <cfg> #nprologue hist : the first nprologue datagrams sequentially (templates, announcements),
 	// the rest concurrently by #workers goroutines on the same pipe; compared with a sequential run on a fresh pipe.
 	handlers["par"] = func(a []string) string {
 		nw := int(unnum(a[0]))
 		npro := int(unnum(a[2]))
-		mk := func() (utils.FlowPipe, *syncRec, error) {
+		// the pipe as cmd/goflow2 assembles it: producer behind the panic and Prometheus wrappers, the Prometheus
+		// template system, DecodeFlow behind the panic and Prometheus wrappers (all of it shared by the workers)
+		mk := func() (decoder, *syncRec, error) {
 			cfg, err := compileCfg(a[1])
 			if err != nil {
-				return nil, nil, err
+				return decoder{}, nil, err
 			}
-			prod, _ := protoproducer.CreateProtoProducer(cfg, protoproducer.CreateSamplingSystem)
+			var prod producer.ProducerInterface
+			prod, _ = protoproducer.CreateProtoProducer(cfg, protoproducer.CreateSamplingSystem)
+			prod = metrics.WrapPromProducer(debug.WrapPanicProducer(prod))
 			fb, _ := format.FindFormat("bin")
 			rec := &syncRec{}
-			return utils.NewFlowPipe(&utils.PipeConfig{Format: fb, Transport: rec, Producer: prod}), rec, nil
+			p := utils.NewFlowPipe(&utils.PipeConfig{Format: fb, Transport: rec, Producer: prod,
+				NetFlowTemplater: metrics.NewDefaultPromTemplateSystem})
+			return decoder{metrics.PromDecoderWrapper(debug.PanicDecoderWrapper(p.DecodeFlow), "flow")}, rec, nil
 		}
 		var msgs []*utils.Message
 		for i := 3; i+3 < len(a); i += 4 {
